@@ -268,6 +268,10 @@ def run(ctx):
         for b, c, is_ne, line in tests:
             if c in ("HEAD", "OPTIONS"):
                 dead = bool(get_true_edges) and cfg.edges_dominate(get_true_edges, b) and all(e[0] != b for e in get_true_edges)
+                if dead and "GET" not in table.get(name, ["GET"]):
+                    # the matcher never accepts GET: there is no path that GET serves here, the property says nothing about this one
+                    r4.note("%s: dead comparison with %s, but the matcher cannot match GET at all" % (name, c))
+                    dead = False
                 r4.instance({"matcher": name, "compares_with": c, "line": line, "only_reachable_when_GET": dead}, ok=not dead)
                 if dead:
                     r4.violate("C09|R7|%s|%s" % (name, c), "%s compares the method with %s at line %d, but that block is only reachable when the method is GET: the comparison is dead, so the author's belief that %s is served is false" % (name, c, line, c), fn.file, line, name)
